@@ -2,13 +2,14 @@
    Statements only.  Composition of Model/Sync.v and Model/Persist.v: the follower is stopped the way the orchestrator
    stops it (shutdown applies the grave goods and last wills it holds, then flushes) and started again as leader on its
    own data directory (restore loads the snapshot and applies the persisted grave goods and last wills).
-   What the follower holds at that point is C11's business (user keys: C11_converges; registrations, including those
-   made before it joined: repair of F11, compared by the correspondence).  That the role flags make the node persist at
+   What the follower holds at that point is C11's business (C11_converges_sessions: user keys and registrations,
+   including those made before it joined); C12_follower_knows_registrations turns that into what promotion applies:
+   exactly the grave goods and last wills registered on the old leader.  That the role flags make the node persist at
    all is the repair of F21 and is checked on the real binary started with the orchestrator's argv. *)
 From Coq Require Import List.
 Import ListNotations.
 From WB Require Import Base.Str Base.Json Model.Key Model.Consts Model.Store Model.Entry Model.Core Model.Codec Model.Persist Model.Sync
-  Proofs.CodecFacts Proofs.PersistFacts Proofs.SyncFacts.
+  Proofs.CodecFacts Proofs.PersistFacts Proofs.CoreFacts Proofs.SyncFacts Proofs.SyncAll.
 
 (* the promoted node serves what the follower held, with the grave goods of every client it knew buried and their
    last wills published: the state after promotion is a function of the follower's state alone -- nothing of it is lost *)
@@ -27,6 +28,21 @@ Theorem C12_shutdown_flush_is_loaded :
   load_v3 d' = Some (apply_gglw (core_of (strip_sys s_SYS (data s))) (all_grave_goods s) (all_last_wills s), d').
 Proof. exact load_after_flush. Qed.
 Print Assumptions C12_shutdown_flush_is_loaded.
+
+(* what the follower applies at its shutdown and, restarted as leader, from its data directory: the grave goods and
+   last wills registered on the old leader (the sessions of all its clients died with it), those registered before
+   the follower joined included -- [Rel L F] is the relation C11 establishes at the join and keeps along every history *)
+Theorem C12_follower_knows_registrations :
+  forall L F, Rel L F ->
+    (forall g, In g (all_grave_goods F) <-> In g (all_grave_goods L)) /\
+    (forall kv, In kv (all_last_wills F) <-> In kv (all_last_wills L)).
+Proof. exact follower_knows_registrations. Qed.
+Print Assumptions C12_follower_knows_registrations.
+
+Theorem C12_joined_follower_is_related :
+  forall L, Inv L -> RegOK L -> Rel L (fdrain (fst (fjoin L)) (snd (fjoin L))).
+Proof. exact join_Rel. Qed.
+Print Assumptions C12_joined_follower_is_related.
 
 Example C12_nonvacuous :
   (* a follower holding a user key, a key covered by a client's grave goods, and that client's last will *)
